@@ -7,8 +7,10 @@ import random
 import time
 
 import codec
+import dmg
 import gens
 import kv
+import recov
 
 TRUSTED = [
     'Coq 8.16.1 kernel (coqc); vm_compute used for finite sweeps and the in-kernel slice; native_compute not used',
@@ -504,6 +506,19 @@ reg(HistProp('C16', cfg_c16, probes_c16, quick=400, thorough=12000,
              rule='small key set with repeats, 35% tombstones, nil key; FindUpdates/FindDeletes and Compact*(Multi) at cut-offs '
                   'around the current time; latest-value map checked before/after; non-trivial = at least 2 compactions',
              nontrivial=lambda ops: sum(1 for o in ops if o.startswith('cupd') or o.startswith('cdel')) >= 2))
+def cfg_c07(rng):
+    p = prof_base(rng, time_mode='mono', versions=rng.choice([[2], [1, 2]]), p_checkrecover=0.9, p_recoverdir=0.5)
+    p['weights'] = w(reopen=30)
+    p['after_close'] = ['checkall']
+    return p
+
+
+reg(HistProp('C07', cfg_c07, probes_scan, quick=150, thorough=3000,
+             rule='log-level half: histories whose reopens use Check/Recover (90%) and RecoverDir, Check of every segment at every '
+                  'close; byte-level half: see coverage.recover', nontrivial=has_multi_layout, extra=recov.c07_extra))
+reg(HistProp('C14', cfg_c01, probes_scan, quick=60, thorough=1000,
+             rule='the damage sweep is the byte-level run (coverage.damage); the history part only keeps the log-level model tied',
+             nontrivial=has_multi_layout, extra=dmg.c14_extra))
 reg(HistProp('C20', cfg_c20, probes_c20, quick=400, thorough=12000,
              rule='Log.Backup into fresh directories and repeated into the same directory after publish-only steps; each backup is '
                   'checked (Segment.Check of every file), opened read-write or read-only and fully observed (scan, Get of every '
